@@ -22,7 +22,10 @@
     * core/environment/environment.go subscribeToWfState: the watcher goroutine
       (`Watch`): it takes the pending value (`Label.take`), then (`Label.look`,
       `Cfg.reread`) re-reads the root role's state — ERROR there overrides a stale value —
-      and on ERROR arms a 500 ms timer and leaves its loop, on DONE it just leaves; the timer
+      and on ERROR arms a 500 ms timer and leaves its loop, on DONE it just leaves. The goroutine is
+      CREATED by `subscribeToWfState` at the end of the creation (after CONFIGURE); until it runs
+      (`Watch.starting`, `Label.subscribe`) nobody is subscribed, and when it runs it first reads the
+      root once — a root that is ERROR already makes it return without entering its loop; the timer
       (`Label.timer`) runs GO_ERROR through TryTransition, forces the state to ERROR if that
       is refused, and sends STOP to every task whose own state is RUNNING;
     * Model/Env for the environment machine itself (GO_ERROR bookkeeping, controlApi).
@@ -124,6 +127,8 @@ def legacyCfg : Cfg := { buffered := false, reread := false }
 
 /-- The watcher goroutine of subscribeToWfState. -/
 inductive Watch where
+  | starting -- `subscribeToWfState` has executed its `go func() { … }()`, the goroutine has not yet subscribed: the
+             -- adapter has no subscriber, a notification goes nowhere (creation's end; `Label.subscribe`)
   | parked   -- in its loop (at the select, or — unbuffered channel only — busy between two selects: `ready` tells)
   | holding (v : TState)  -- has taken `v` from its channel, has not yet looked at it (buffered channel only)
   | armed    -- saw ERROR: handlingError, 500 ms timer set, loop left
@@ -169,6 +174,12 @@ def rootStatus : Forest → TStatus
   | .leaf _ _ _ su _ => su
   | .nil => .UNDEFINED
 
+/-- The first thing the watcher goroutine does: `SubscribeToStateChange`, then
+    `wfState := wf.GetState(); if wfState != sm.ERROR { …loop… }` — a root that says ERROR
+    ALREADY makes it skip its loop altogether: it returns without ever touching the environment. -/
+def subscribeStep (s : Sys) : Sys :=
+  if rootState s.f = .ERROR then { s with w := .gone } else { s with w := .parked }
+
 /-- What the watcher does with a value it has received: (re-read of the root,) ERROR ⇒ arm
     the timer and leave, DONE ⇒ leave, anything else ⇒ back to the select. -/
 def react (c : Cfg) (s : Sys) (v : TState) : Sys :=
@@ -190,7 +201,7 @@ def notify (c : Cfg) (s : Sys) (v : Option TState) (ready : Bool) : Sys :=
         match s.chan with
         | none => { s with chan := some st }
         | some _ => if st = .ERROR then { s with dropped := s.dropped + 1 } else s
-      else s   -- the watcher has left its loop: nobody will ever receive
+      else s   -- the watcher has left its loop — or has not subscribed yet (`starting`): nobody will ever receive
     else
       match s.w with
       | .parked =>
@@ -256,6 +267,7 @@ inductive Label where
   | finish                        -- the in-flight transition ends and releases the mutex
   | devStop (ok ready : Bool)     -- a queued TryTransition(STOP_ACTIVITY) gets the mutex
   | timer                         -- the watcher's timer function gets the mutex
+  | subscribe                     -- the watcher goroutine starts running: subscribes and reads the root once
   | take                          -- the watcher receives the value waiting in its channel
   | look                          -- the watcher (re-reads the root and) acts on the value it holds
   deriving DecidableEq, Repr
@@ -270,6 +282,7 @@ def enabled (s : Sys) : Label → Bool
     | none => false
   | .devStop _ _ => s.inflight.isNone && decide (0 < s.stopReq)
   | .timer => s.inflight.isNone && decide (s.w = .armed)
+  | .subscribe => decide (s.w = .starting)
   | .take => decide (s.w = .parked) && s.chan.isSome
   | .look => match s.w with
     | .holding _ => true
@@ -320,6 +333,7 @@ def istep (c : Cfg) (s : Sys) : Label → Sys
     | none => s
   | .devStop ok ready => devStopStep c s ok ready
   | .timer => timerStep c s
+  | .subscribe => if s.w = .starting then subscribeStep s else s
   | .take =>
     match s.w, s.chan with
     | .parked, some v => { s with w := .holding v, chan := none }
@@ -339,13 +353,13 @@ def validRun (c : Cfg) : Sys → List Label → Bool
 /-- No internal step is enabled. -/
 def quiescent (s : Sys) : Bool :=
   !enabled s .arrive && !enabled s (.apply 0 true) && !enabled s .finish && !enabled s (.devStop true true) && !enabled s .timer &&
-  !enabled s .take && !enabled s .look
+  !enabled s .take && !enabled s .look && !enabled s .subscribe
 
 /-- Upper bound on the number of internal steps still possible: every step that is not the
     watcher's own costs 3 (it can put one value into the watcher's channel, which the watcher
     then takes and looks at). -/
 def Watch.weight : Watch → Nat
-  | .holding _ => 3 | .parked => 2 | .armed => 1 | .gone => 0
+  | .starting => 3 | .holding _ => 3 | .parked => 2 | .armed => 1 | .gone => 0
 
 def chanWeight (s : Sys) : Nat := if s.chan.isSome then 2 else 0
 
@@ -358,7 +372,8 @@ def budget (s : Sys) : Nat :=
     up; replies, end of the transition, the queued STOP, then — 500 ms later — the timer),
     every notification finding the watcher at its receive. -/
 def pick (s : Sys) : Option Label :=
-  if enabled s .take then some .take
+  if enabled s .subscribe then some .subscribe
+  else if enabled s .take then some .take
   else if enabled s .look then some .look
   else if enabled s .arrive then some .arrive
   else if enabled s (.apply 0 true) then some (.apply 0 true)
@@ -370,7 +385,8 @@ def pick (s : Sys) : Option Label :=
 /-- The same, but queued state updates run last (the transition can end, and the timer
     function can look at the tasks' states, before a reply's update has been applied). -/
 def pickLate (s : Sys) : Option Label :=
-  if enabled s .take then some .take
+  if enabled s .subscribe then some .subscribe
+  else if enabled s .take then some .take
   else if enabled s .look then some .look
   else if enabled s .arrive then some .arrive
   else if enabled s .finish then some .finish
